@@ -59,6 +59,42 @@ def neighbours(num, den):
     return lo, lo + 1, False
 
 
+def nearest_up(num, den):
+    """bit pattern of the double nearest to num/den with exact ties going up in magnitude (what the reader computes
+    before ldexp), or None outside the normal range (there ldexp rounds a second time)"""
+    e = num.bit_length() - den.bit_length()
+    if (num << max(0, -e)) < (den << max(0, e)):
+        e -= 1
+    if e >= 1023 or e < -1022:
+        return None
+    q = e - 52
+    if q >= 0:
+        t, r, d = divmod(num, den << q) + (den << q,)
+    else:
+        t, r, d = divmod(num << (-q), den) + (den,)
+    if 2 * r >= d:
+        t += 1
+    return (q + 1074) * (1 << 52) + t
+
+
+def nearest_expected(M, b, E, P):
+    if M == 0:
+        return None
+    lo, hi = log2_bounds(M, b, E, P)
+    if lo > 1030 or hi < -1080:
+        return None
+    num, den = M, 1
+    if E >= 0:
+        num *= b ** E
+    else:
+        den *= b ** (-E)
+    if P >= 0:
+        num <<= P
+    else:
+        den <<= -P
+    return nearest_up(num, den)
+
+
 def log2_bounds(M, b, E, P):
     """cheap bounds on floor(log2(M * b^E * 2^P)) to avoid building astronomically large powers"""
     lb = (b.bit_length() - 1)          # floor(log2 b)
@@ -434,8 +470,9 @@ def print_doubles(rng, n):
     out = [0, 1 << 63, 1, 2, (1 << 52) - 1, 1 << 52, (1 << 52) + 1, DBL_MAX_BITS, DBL_MAX_BITS - 1, bits_of_float(1.0), bits_of_float(0.1), bits_of_float(1e22), bits_of_float(1e23),
            bits_of_float(5e-324), bits_of_float(2.2250738585072014e-308), bits_of_float(9007199254740992.0), bits_of_float(9007199254740991.0), bits_of_float(1.0 + 2.0 ** -17),
            bits_of_float(1e16), bits_of_float(1e17), bits_of_float(123456789012345678.0), bits_of_float(1e-4), bits_of_float(1e-5), bits_of_float(0.0001234), bits_of_float(99999999999999990.0)]
-    for ex in range(1, 2047, 1 if n > 20000 else 7):
+    for ex in range(1, 2047):
         out += [ex << 52, (ex << 52) - 1, (ex << 52) + 1]
+    out += [u | (1 << 63) for u in out[:40]]
     while len(out) < n:
         r = rng.below(10)
         if r < 4:
